@@ -8,8 +8,20 @@
 extern "C"
 #endif
 void sim_atomic_event(const void* addr, int size, int kind);
-#define __atomic_load_n(p, o)            (sim_atomic_event((p), (int)sizeof(*(p)), 0), __atomic_load_n((p), (o)))
-#define __atomic_store_n(p, v, o)        (sim_atomic_event((p), (int)sizeof(*(p)), 1), __atomic_store_n((p), (v), (o)))
+/* loads and stores pass their memory order to the simulator: a store weaker than seq_cst is delayed in the task's
+ * store buffer (the simulator performs it later), a load sees the task's own delayed stores */
+#ifdef __cplusplus
+extern "C"
+#endif
+int sim_atomic_store(void* addr, int size, unsigned long long v, int order);
+#ifdef __cplusplus
+extern "C"
+#endif
+int sim_atomic_load(const void* addr, int size, int order, unsigned long long* out);
+#define __atomic_load_n(p, o) __extension__({ __typeof__(*(p)) sim_v_; unsigned long long sim_f_; \
+    if (sim_atomic_load((p), (int)sizeof(*(p)), (o), &sim_f_)) sim_v_ = (__typeof__(*(p)))sim_f_; else sim_v_ = __atomic_load_n((p), (o)); sim_v_; })
+#define __atomic_store_n(p, v, o) __extension__({ __typeof__(*(p)) sim_s_ = (v); \
+    if (!sim_atomic_store((p), (int)sizeof(*(p)), (unsigned long long)sim_s_, (o))) __atomic_store_n((p), sim_s_, (o)); })
 #define __atomic_exchange_n(p, v, o)     (sim_atomic_event((p), (int)sizeof(*(p)), 2), __atomic_exchange_n((p), (v), (o)))
 #define __atomic_fetch_add(p, v, o)      (sim_atomic_event((p), (int)sizeof(*(p)), 2), __atomic_fetch_add((p), (v), (o)))
 #define __atomic_fetch_sub(p, v, o)      (sim_atomic_event((p), (int)sizeof(*(p)), 2), __atomic_fetch_sub((p), (v), (o)))
